@@ -642,7 +642,7 @@ func (rn *run) exec() error {
 				}
 				rn.rec.emit(tr.E{"ev": "ret", "c": c, "op": o.Op, "s": o.S, "code": code})
 				smu.Lock()
-				if o.Op == "step" && !delCalled[o.S] {
+				if o.Op == "step" && code == 200 && !delCalled[o.S] {
 					served[o.S]++
 				}
 				smu.Unlock()
